@@ -537,6 +537,13 @@ impl QueryFilter {
                             };
                         }
                     }
+                } else if column
+                    .as_primitive_opt::<arrow_array::types::Float64Type>()
+                    .is_some()
+                {
+                    // An integer literal on a float column (`value_f64 > 5`) compares numerically
+                    let as_float = PredicateValue::Float64(*expected as f64);
+                    Self::apply_comparison(pred, column, &as_float, mask);
                 }
             }
             PredicateValue::Float64(expected) => {
@@ -558,9 +565,33 @@ impl QueryFilter {
                             };
                         }
                     }
+                } else if let Some(arr) = column.as_primitive_opt::<arrow_array::types::Int64Type>()
+                {
+                    // A float literal on an integer column (`value_i64 > 5.5`) compares numerically
+                    for (i, val_opt) in arr.iter().enumerate() {
+                        if mask[i] {
+                            mask[i] = match val_opt {
+                                Some(v) => Self::compare_f64(pred, v as f64, *expected),
+                                None => false,
+                            };
+                        }
+                    }
                 }
             }
             _ => {} // Boolean/Null: no-op for streaming filters
+        }
+    }
+
+    /// `v OP expected` for the comparison operator of `pred` (float semantics of `apply_comparison`)
+    fn compare_f64(pred: &ColumnPredicate, v: f64, expected: f64) -> bool {
+        match pred {
+            ColumnPredicate::Eq(..) => (v - expected).abs() < f64::EPSILON,
+            ColumnPredicate::NotEq(..) => (v - expected).abs() >= f64::EPSILON,
+            ColumnPredicate::Lt(..) => v < expected,
+            ColumnPredicate::LtEq(..) => v <= expected,
+            ColumnPredicate::Gt(..) => v > expected,
+            ColumnPredicate::GtEq(..) => v >= expected,
+            _ => false,
         }
     }
 
